@@ -2,6 +2,7 @@ package props
 
 import (
 	"context"
+	"errors"
 	"fmt"
 	"io"
 	"net/http"
@@ -12,6 +13,7 @@ import (
 
 	"verifharness/ev"
 	"verifharness/memhttp"
+	"verifharness/refwire"
 )
 
 // C04 — a call succeeds only if the peer's end-of-stream marker arrived.
@@ -179,6 +181,81 @@ func c04Check(c *ev.Collector, k c04Case, baseline wireObs) {
 		c.Outcome("success")
 	} else {
 		c.Outcome("failed:" + strings.SplitN(strings.TrimPrefix(obs.End, "err:"), ":", 2)[0])
+	}
+}
+
+// c04SendAfterCutResponse: a bidi call whose response is cut at a message
+// boundary with a clean end and no terminator, served by a transport that has
+// taken exactly the first request message and afterwards neither reads nor
+// closes the request body.  Receive must report the failure, and a Send issued
+// afterwards must return (nothing but the library can release it).
+func c04SendAfterCutResponse(t *testing.T, c *ev.Collector) {
+	idx := 0
+	for _, p := range AllProtos {
+		for _, nmsg := range []int{0, 1, 2} {
+			idx++
+			if !ev.Mine(idx) {
+				continue
+			}
+			key := fmt.Sprintf("send-after-cut-response/%s/bidi/msgs%d", p, nmsg)
+			c.Case(key, true)
+			Bubble(t, func() {
+				hdr := http.Header{"Content-Type": {contentType(p, KBidi, false)}}
+				var body []byte
+				for i := 0; i < nmsg; i++ {
+					body = append(body, refwire.Envelope(0, codecMarshal(false, &BV{Value: []byte{'m', byte(i)}}))...)
+				}
+				inner := refwire.Handler(200, hdr, body, nil) // no end-of-stream envelope, no trailer frame, no HTTP trailers
+				peer := http.HandlerFunc(func(w http.ResponseWriter, r *http.Request) {
+					prefix := make([]byte, 5)
+					if _, err := io.ReadFull(r.Body, prefix); err == nil {
+						l := int(prefix[1])<<24 | int(prefix[2])<<16 | int(prefix[3])<<8 | int(prefix[4])
+						_, _ = io.ReadFull(r.Body, make([]byte, l))
+					}
+					inner.ServeHTTP(w, r)
+				})
+				tr := &memhttp.Transport{Handler: peer, Proto: 2, ReqMode: memhttp.ReqLazy, NoCloseReq: true}
+				cl := NewClient(tr, Cfg{Proto: p, Comp: CompNone, Kind: KBidi, HTTP: 2})
+				var recvErr, sendErr error
+				got := 0
+				g := Guarded(func() {
+					stream := cl.CallBidiStream(context.Background())
+					_ = stream.Send(&BV{Value: []byte{1}})
+					for {
+						if _, err := stream.Receive(); err != nil {
+							recvErr = err
+							break
+						}
+						got++
+					}
+					sendErr = stream.Send(&BV{Value: []byte{2}})
+					_ = stream.CloseRequest()
+					_ = stream.CloseResponse()
+				}, tr)
+				c.AddTransitions(5)
+				c.AddStates(5)
+				c.AddTraces(1)
+				tags := []string{"proto=" + p.String(), "kind=bidi", "dir=response", "send-after-failed-receive"}
+				switch {
+				case g.Panicked:
+					c.Violation("TestC04", "no-panic", "panic", tags, key, "%s: panic %v\n%s", key, g.Panic, g.Stack)
+					c.Outcome("violation")
+				case g.Hung:
+					c.Violation("TestC04", "terminates", "deadlock", tags, key, "%s: the call did not terminate (received %d messages, Receive error %v)\n%s", key, got, recvErr, trimStacks(g.Stack))
+					c.Outcome("violation")
+					BailIfStuck(c, g)
+				case recvErr == nil || errors.Is(recvErr, io.EOF) || CodeOfErr(recvErr) == 0:
+					c.Violation("TestC04", "success-needs-terminator", "clean-success", tags, key, "%s: the response ended without its terminator but Receive reported %v", key, recvErr)
+					c.Outcome("violation")
+				case got > nmsg:
+					c.Violation("TestC04", "delivered-prefix", "not-a-prefix", tags, key, "%s: %d messages delivered, %d sent", key, got, nmsg)
+					c.Outcome("violation")
+				default:
+					_ = sendErr
+					c.Outcome("failed:" + CodeOfErr(recvErr).String())
+				}
+			})
+		}
 	}
 }
 
@@ -449,6 +526,7 @@ func TestC04(t *testing.T) {
 	c.Bound("corpus_bodies", len(corpus))
 	c04DoFails(t, c)
 	c04WriteFaults(t, c)
+	c04SendAfterCutResponse(t, c)
 	idx := 0
 	for _, w := range corpus {
 		var base wireObs
